@@ -7,16 +7,19 @@ validate(Union[m1..mk], v):
   accepts v, left to right.
 member validators (v1.10): float <- float | int (float(v): OverflowError above 1.8e308) | bool | str parseable by
   float(); int <- int | integral float | str parseable by int(); str <- str | int | float (str(v));
-  tuple <- tuple | list | set ... (shallow tuple(v)); Model <- instance of the model (or dict).
+  tuple <- tuple | list | set ... (shallow tuple(v)); Model <- instance of the model, a dict, or ANYTHING dict() accepts (a list of
+  pairs!) whose keys fit the model's fields.
   NonNegativeFloat / NonNegativeInt: float / int plus `>= 0`.
 """
 import ast
 
-KINDS = ["int", "int>2^53", "int>1e308", "float", "str-numeric", "str-plain", "list", "Identifier"]
+KINDS = ["int", "int>2^53", "int>1e308", "float", "str-numeric", "str-plain", "list", "list-of-pairs", "Identifier"]
 EXEMPLARS = {   # concrete witnesses per kind (used for replay and the native cross-check)
     "int": [18, 0, -5], "int>2^53": [9007199254740993], "int>1e308": [10 ** 309], "float": [1.5, -0.25, 0.1],
     "str-numeric": ["02134", "1e5", "inf", " 12 ", "nan", "1_0"], "str-plain": ["abc", "", "it's", "C:\\temp"],
     "list": [[1, 2], ["a"], [1, [2, 3]]], "Identifier": ["<Identifier x>"],
+    # a tuple of pairs is dict()-able: BaseModel.validate(v) falls back to cls(**dict(v)) for anything that is not a dict
+    "list-of-pairs": [[["name", "bob"], ["role", "admin"]], [["name", "x"]], [["role", 1], ["name", "uid"]]],
 }
 
 
@@ -79,14 +82,16 @@ def member_accepts(m, kind):
             return ("coerced", "str", "number becomes its str()")
         return None
     if m == "tuple":
-        if kind == "list":
+        if kind in ("list", "list-of-pairs"):
             return ("container", "tuple", "shallow tuple(v): items unchanged")
         return None
     if m.startswith("list"):
-        if kind == "list":
+        if kind in ("list", "list-of-pairs"):
             return ("same",)
         return None
     if m == "Identifier":
+        if kind == "list-of-pairs":
+            return ("coerced", "Identifier", "dict(v) has a 'name' key: the tuple of pairs becomes Identifier(name=...)")
         return ("same",) if kind == "Identifier" else None
     if m == "None":
         return None
